@@ -25,6 +25,9 @@ func appendEval(root map[string]any, at any, args ...any) any {
 		panic(fmt.Errorf("append expected an array argument, not a %T", v))
 	}
 	v = evalArg(root, at, args[1])
+	// the result is a list of its own: the argument may be a list of the root or
+	// of the plan, and one with room to spare would be written into
+	list = append(make([]any, 0, len(list)+1), list...)
 
 	return append(list, v)
 }
